@@ -33,11 +33,13 @@ def check(ctx):
     ctx.rule("C05-E", "separator is '│' iff draw_borders else ' '; the bottom rule is added only under draw_borders")
     ctx.rule("C05-F", "stacked rows: separators span self.width() with kind StraightVert, drawn only under draw_borders, "
              "closed by add_horizontal_border under draw_borders")
+    ctx.rule("C05-H", "the rule above a table has the width of the table's rows: the renderer width exactly when stacked, "
+             "Σ column widths + separators between non-empty columns side by side")
     ctx.rule("C05-G", "every line of a column is brought to the column's width before anything uses it: text lines are padded "
              "and border lines stretched to `width` in the per-column normalisation, so padding rows and collapsed borders "
              "have the column's width")
     for rid, fn in (("C05-A", rule_a), ("C05-B", rule_b), ("C05-C", rule_c), ("C05-D", rule_d), ("C05-E", rule_e),
-                    ("C05-F", rule_f), ("C05-G", rule_g)):
+                    ("C05-F", rule_f), ("C05-G", rule_g), ("C05-H", rule_h)):
         ctx.guard(rid, fn)
 
 
@@ -356,6 +358,55 @@ def rule_f(ctx):
     nb = ahb.calls(lambda cd, t: ends(cd, "BorderHoriz::<T>::new"))
     okc = len(nb) == 1 and direct_field(ahb, nb[0][1]["args"][0]) == ("render::text_renderer::SubRenderer", "width")
     ctx.check(okc, "C05-F", "add_horizontal_border-spans-width", ahb.span, ahb.id, "")
+
+
+def rule_h(ctx):
+    """The rule above a table is as wide as the table's rows: in render_table_tree the width handed to
+    add_horizontal_border_width is the renderer width exactly on the stacked path and, side by side, the sum of the
+    column widths plus one separator between the non-empty columns (the columns into_cells lays out)."""
+    import re
+    from ..widths import table_locals, _is_width_call, norm as wnorm
+    F = ctx.facts
+    b, W, V, S = table_locals(F)
+    cs = b.calls(lambda cd, t: ends(cd, RTRAIT + "add_horizontal_border_width"))
+    if not ctx.check(len(cs) == 1, "C05-H", "table:one-top-rule", b.span, b.id, "%d add_horizontal_border_width calls" % len(cs)):
+        return
+    pl = direct_place(b, cs[0][1]["args"][1])
+    require(pl is not None and is_bare(pl), "top rule width must be a local")
+    T = pl["l"]
+    env = {}
+    wsym = re.escape(b.canon(W, env=env))
+    vcut_true = edges_where(b, lambda truth, src, a, s: truth is True and src and src[0] == "place" and is_bare(src[1]) and src[1]["l"] == V)
+    vcut_false = edges_where(b, lambda truth, src, a, s: truth is False and src and src[0] == "place" and is_bare(src[1]) and src[1]["l"] == V)
+    kinds = []
+    for r in b.defs()[T]:
+        if r[1] not in b.reachable():
+            continue
+        if r[0] == "call" and callee_method(r[2]) == "width":
+            okc = unreachable_without_edges(b, r[1], vcut_true)
+            kinds.append("width")
+            ctx.check(okc, "C05-H", "table:top-rule=width-only-when-stacked", r[2]["span"], b.id,
+                      "the top rule gets the full renderer width on a path that is not the stacked layout")
+        elif r[0] == "stmt" and "use" in r[3]["rv"]:
+            o = r[3]["rv"]["use"]
+            if _is_width_call(b, o):
+                okc = unreachable_without_edges(b, r[1], vcut_true)
+                kinds.append("width")
+                ctx.check(okc, "C05-H", "table:top-rule=width-only-when-stacked", r[3]["span"], b.id,
+                          "the top rule gets the full renderer width on a path that is not the stacked layout")
+                continue
+            ex = wnorm(b.canon(o, env=env))
+            okf = re.fullmatch(r"\(Iterator::sum\(Iterator::cloned\(<impl \[T\]>::iter\(&<std::vec::Vec<T, A> as std::ops::Deref>::deref\(&%s\)\)\)\) \+ "
+                               r"<impl usize>::saturating_sub\(<std::iter::Filter<I, P> as std::iter::Iterator>::count\(Iterator::filter\("
+                               r"<impl \[T\]>::iter\(&<std::vec::Vec<T, A> as std::ops::Deref>::deref\(&%s\)\), render_table_tree::\{closure\}\{\}\)\), 1_usize\)\)"
+                               % (wsym, wsym), ex) is not None
+            kinds.append("sum")
+            ctx.check(okf and unreachable_without_edges(b, r[1], vcut_false), "C05-H", "table:top-rule=Σw+(nonempty−1)-side-by-side",
+                      r[3]["span"], b.id, "side-by-side top rule width is %s" % ex[:200])
+        else:
+            kinds.append("?")
+            ctx.violation("C05-H", "table:top-rule-width:other-definition", b.span, b.id, "unexpected definition of the top rule width")
+    ctx.check(sorted(kinds) == ["sum", "width"], "C05-H", "table:top-rule-width:two-definitions", b.span, b.id, str(kinds))
 
 
 def rule_g(ctx):
